@@ -148,11 +148,46 @@ type lruAPI interface {
 	Evictions() int64
 	Keys() []int64
 	Items() [][2]int64
+	// Hold(removed, listings): from now on keep the slices the cache returns exactly as returned (no copy), together with
+	// a deep copy taken at return time; Held re-reads every kept slice now
+	Hold(removed, listings bool)
+	Held() []heldSlice
+}
+
+// heldSlice is one slice the caller kept: what it contained when the call returned and what it contains now
+type heldSlice struct {
+	What     string
+	AtReturn []int64
+	Now      []int64
+}
+
+type holder struct {
+	holdRemoved, holdListings bool
+	kept                      []keptSlice
+}
+
+type keptSlice struct {
+	what     string
+	atReturn []int64
+	reread   func() []int64
+}
+
+func (h *holder) Hold(removed, listings bool) { h.holdRemoved, h.holdListings = removed, listings }
+func (h *holder) Held() []heldSlice {
+	out := make([]heldSlice, len(h.kept))
+	for i, k := range h.kept {
+		out[i] = heldSlice{k.what, k.atReturn, k.reread()}
+	}
+	return out
+}
+func (h *holder) keep(what string, reread func() []int64) {
+	h.kept = append(h.kept, keptSlice{what, reread(), reread})
 }
 
 type stdLRU struct {
 	c  *cache.LRUCache
 	kk int
+	holder
 }
 
 func (a *stdLRU) Get(k int64) (int64, bool) {
@@ -173,11 +208,17 @@ func (a *stdLRU) Exist(k int64) bool { return a.c.Exist(mkKey(a.kk, k)) }
 func (a *stdLRU) Set(k, v, sz int64) { a.c.Set(mkKey(a.kk, k), sval{v, int(sz)}) }
 func (a *stdLRU) SetAndGetRemoved(k, v, sz int64) []int64 {
 	r := a.c.SetAndGetRemoved(mkKey(a.kk, k), sval{v, int(sz)})
-	out := make([]int64, len(r))
-	for i, x := range r {
-		out[i] = stdVal(x)
+	dec := func() []int64 {
+		out := make([]int64, len(r))
+		for i, x := range r {
+			out[i] = stdVal(x)
+		}
+		return out
 	}
-	return out
+	if a.holdRemoved && len(r) > 0 {
+		a.keep("SetAndGetRemoved", dec)
+	}
+	return dec()
 }
 func (a *stdLRU) SetIfAbsent(k, v, sz int64) { a.c.SetIfAbsent(mkKey(a.kk, k), sval{v, int(sz)}) }
 func (a *stdLRU) Delete(k int64) bool        { return a.c.Delete(mkKey(a.kk, k)) }
@@ -193,14 +234,29 @@ func (a *stdLRU) Capacity() int64  { return a.c.Capacity() }
 func (a *stdLRU) Evictions() int64 { return a.c.Evictions() }
 func (a *stdLRU) Keys() []int64 {
 	ks := a.c.Keys()
-	out := make([]int64, len(ks))
-	for i, k := range ks {
-		out[i] = unKey(k)
+	dec := func() []int64 {
+		out := make([]int64, len(ks))
+		for i, k := range ks {
+			out[i] = unKey(k)
+		}
+		return out
 	}
-	return out
+	if a.holdListings && len(ks) > 0 {
+		a.keep("Keys", dec)
+	}
+	return dec()
 }
 func (a *stdLRU) Items() [][2]int64 {
 	it := a.c.Items()
+	if a.holdListings && len(it) > 0 {
+		a.keep("Items", func() []int64 {
+			flat := make([]int64, 0, 2*len(it))
+			for _, x := range it {
+				flat = append(flat, unKey(x.Key), stdVal(x.Value))
+			}
+			return flat
+		})
+	}
 	out := make([][2]int64, len(it))
 	for i, x := range it {
 		out[i] = [2]int64{unKey(x.Key), stdVal(x.Value)}
@@ -211,6 +267,7 @@ func (a *stdLRU) Items() [][2]int64 {
 type tinyLRU struct {
 	c  *tiny.LRUCache
 	kk int
+	holder
 }
 
 func (a *tinyLRU) Get(k int64) (int64, bool) {
@@ -231,11 +288,17 @@ func (a *tinyLRU) Exist(k int64) bool { return a.c.Exist(mkKey(a.kk, k)) }
 func (a *tinyLRU) Set(k, v, sz int64) { a.c.Set(mkKey(a.kk, k), v) }
 func (a *tinyLRU) SetAndGetRemoved(k, v, sz int64) []int64 {
 	r := a.c.SetAndGetRemoved(mkKey(a.kk, k), v)
-	out := make([]int64, len(r))
-	for i, x := range r {
-		out[i] = tinyVal(x)
+	dec := func() []int64 {
+		out := make([]int64, len(r))
+		for i, x := range r {
+			out[i] = tinyVal(x)
+		}
+		return out
 	}
-	return out
+	if a.holdRemoved && len(r) > 0 {
+		a.keep("SetAndGetRemoved", dec)
+	}
+	return dec()
 }
 func (a *tinyLRU) SetIfAbsent(k, v, sz int64) { a.c.SetIfAbsent(mkKey(a.kk, k), v) }
 func (a *tinyLRU) Delete(k int64) bool        { return a.c.Delete(mkKey(a.kk, k)) }
@@ -251,14 +314,29 @@ func (a *tinyLRU) Capacity() int64  { return a.c.Capacity() }
 func (a *tinyLRU) Evictions() int64 { return a.c.Evictions() }
 func (a *tinyLRU) Keys() []int64 {
 	ks := a.c.Keys()
-	out := make([]int64, len(ks))
-	for i, k := range ks {
-		out[i] = unKey(k)
+	dec := func() []int64 {
+		out := make([]int64, len(ks))
+		for i, k := range ks {
+			out[i] = unKey(k)
+		}
+		return out
 	}
-	return out
+	if a.holdListings && len(ks) > 0 {
+		a.keep("Keys", dec)
+	}
+	return dec()
 }
 func (a *tinyLRU) Items() [][2]int64 {
 	it := a.c.Items()
+	if a.holdListings && len(it) > 0 {
+		a.keep("Items", func() []int64 {
+			flat := make([]int64, 0, 2*len(it))
+			for _, x := range it {
+				flat = append(flat, unKey(x.Key), tinyVal(x.Value))
+			}
+			return flat
+		})
+	}
 	out := make([][2]int64, len(it))
 	for i, x := range it {
 		out[i] = [2]int64{unKey(x.Key), tinyVal(x.Value)}
@@ -270,14 +348,14 @@ func (a *tinyLRU) Items() [][2]int64 {
 func newLRU(variant string, capacity int64, kk int, viaFacade bool) lruAPI {
 	if variant == "tiny" {
 		if viaFacade {
-			return &tinyLRU{tiny.NewSingleLRUCache(capacity).(*tiny.LRUCache), kk}
+			return &tinyLRU{c: tiny.NewSingleLRUCache(capacity).(*tiny.LRUCache), kk: kk}
 		}
-		return &tinyLRU{tiny.NewLRUCache(capacity), kk}
+		return &tinyLRU{c: tiny.NewLRUCache(capacity), kk: kk}
 	}
 	if viaFacade {
-		return &stdLRU{cache.NewSingleLRUCache(capacity).(*cache.LRUCache), kk}
+		return &stdLRU{c: cache.NewSingleLRUCache(capacity).(*cache.LRUCache), kk: kk}
 	}
-	return &stdLRU{cache.NewLRUCache(capacity), kk}
+	return &stdLRU{c: cache.NewLRUCache(capacity), kk: kk}
 }
 
 // ---- the wide caches behind one interface ---------------------------------------------
